@@ -134,6 +134,14 @@ func (x *Exec) sortOf(t types.Type) string {
 		if s, ok := x.tenv[t.Obj().Name()]; ok {
 			return s
 		}
+		// a type parameter whose core type is a map is modelled as that map
+		if it, ok := t.Constraint().Underlying().(*types.Interface); ok && it.NumEmbeddeds() == 1 {
+			if u, ok := it.EmbeddedType(0).(*types.Union); ok && u.Len() == 1 {
+				if m, ok := u.Term(0).Type().Underlying().(*types.Map); ok {
+					return x.sortOf(m)
+				}
+			}
+		}
 		return x.d.Uninterp("U_" + t.Obj().Name())
 	case *types.Pointer:
 		if n := namedOf(t.Elem()); n != nil {
